@@ -820,3 +820,133 @@ Proof.
   intros H x. rewrite (NoDup_count_occ Z.eq_dec) in H. specialize (H x).
   unfold ns_cmn, ns_cm. cbn. lia.
 Qed.
+
+(* ---------------------------------------------------------------- the checker accepts the model *)
+Definition ns_abs (s : ns_st) : ns_mon :=
+  ns_mkmon (ns_open s) (ns_est s) (map ns_nmsg (ns_sq s)) (map ns_nmsg (ns_dq s)).
+
+Lemma ns_msg_eqb_refl x : ns_msg_eqb x x = true.
+Proof. unfold ns_msg_eqb. rewrite eqb_reflx, !Z.eqb_refl. reflexivity. Qed.
+
+Lemma ns_mon_txs_ok nstart : forall txs infl rest,
+  Z.of_nat (length (infl ++ filter ns_con txs)) <= nstart ->
+  ns_mon_txs nstart infl (txs ++ rest) txs = Some (infl ++ filter ns_con txs, rest).
+Proof.
+  induction txs as [|x r IH]; intros infl rest H.
+  - cbn [app filter]. rewrite app_nil_r. destruct rest; reflexivity.
+  - cbn [app ns_mon_txs]. rewrite ns_msg_eqb_refl. cbn [filter] in *.
+    rewrite app_length in H.
+    destruct (ns_con x).
+    + cbn [length] in H. rewrite app_length. cbn [length].
+      destruct (Z.of_nat (length infl + 1) <=? nstart) eqn:E; [|lia].
+      rewrite IH; [rewrite <- app_assoc; reflexivity|].
+      rewrite <- app_assoc, app_length. cbn [app length]. lia.
+    + destruct (Z.of_nat (length infl) <=? nstart) eqn:E; [|lia].
+      apply IH. rewrite app_length. exact H.
+Qed.
+
+Lemma ns_quiescent_inv c s : ns_inv c s ->
+  ns_quiescent (ns_nstart c) (ns_est s) (map ns_nmsg (ns_sq s)) (map ns_nmsg (ns_dq s)) = true.
+Proof.
+  intros Hi. unfold ns_quiescent. destruct (ns_est s) eqn:He; [|reflexivity].
+  pose proof (iv_qui _ _ Hi He) as Hq. destruct (ns_dq s) as [|q t]; [reflexivity|].
+  cbn [map ns_quiet] in *. destruct Hq as [Hq1 Hq2]. unfold ns_ncon in Hq1. rewrite Hq1.
+  rewrite map_length, <- (iv_act _ _ Hi), Hq2, Z.eqb_refl. reflexivity.
+Qed.
+
+Lemma ns_mon_finish_ok c s s' base txs o : ns_inv c s' -> ns_rel s s' base txs ->
+  ns_open s' = true -> ns_txs o = txs ->
+  ns_mon_finish c (ns_est s') (map ns_nmsg base) (map ns_nmsg (ns_dq s)) o = Some (ns_abs s').
+Proof.
+  intros Hi (A1 & A2 & A3) Ho Ht. unfold ns_mon_finish. rewrite Ht, A2.
+  rewrite ns_mon_txs_ok.
+  - rewrite <- A3. rewrite (ns_quiescent_inv c s' Hi). unfold ns_abs. rewrite Ho. reflexivity.
+  - rewrite <- A3, map_length, <- (iv_act _ _ Hi). exact (iv_le _ _ Hi).
+Qed.
+
+Lemma ns_gaveup_app a b : ns_gaveup (a ++ b) = ns_gaveup a ++ ns_gaveup b.
+Proof. unfold ns_gaveup. apply flat_map_app. Qed.
+Lemma ns_res_app a b : ns_res (a ++ b) = ns_res a ++ ns_res b.
+Proof. unfold ns_res. apply flat_map_app. Qed.
+Lemma ns_gaveup_maptx l : ns_gaveup (map NsTx l) = [].
+Proof. induction l as [|h t IH]; [reflexivity|]. cbn. exact IH. Qed.
+Lemma ns_res_maptx l : ns_res (map NsTx l) = [].
+Proof. induction l as [|h t IH]; [reflexivity|]. cbn. exact IH. Qed.
+
+Lemma ns_existsb_mid_map mid l :
+  existsb (fun p => ns_mid p =? mid) (map ns_nmsg l) = existsb (fun q => ns_nmid q =? mid) l.
+Proof. induction l as [|h t IH]; [reflexivity|]. cbn [map existsb]. rewrite IH. reflexivity. Qed.
+
+Lemma ns_existsb_mid_in mid l n : In n l -> ns_nmid n = mid ->
+  existsb (fun q => ns_nmid q =? mid) l = true.
+Proof.
+  intros Hin E. apply existsb_exists. exists n. split; [exact Hin|]. rewrite E. apply Z.eqb_refl.
+Qed.
+
+Lemma ns_existsb_mid_none mid l : (forall n, In n l -> ns_nmid n <> mid) ->
+  existsb (fun q => ns_nmid q =? mid) l = false.
+Proof.
+  intros H. destruct (existsb _ l) eqn:E; [|reflexivity].
+  apply existsb_exists in E. destruct E as (n & Hin & E). specialize (H n Hin). lia.
+Qed.
+
+(* nack counting for the disconnect *)
+Lemma ns_nack_count_app x a b : ns_nack_count x (a ++ b) = (ns_nack_count x a + ns_nack_count x b)%nat.
+Proof. unfold ns_nack_count. rewrite filter_app, app_length. reflexivity. Qed.
+
+Lemma ns_nack_count_nacks x r l : (ns_nack_count x (ns_nacks r l) <= ns_cmn x l)%nat.
+Proof.
+  unfold ns_cmn. induction l as [|h t IH]; [apply le_n|].
+  unfold ns_nacks in *. cbn [flat_map map].
+  replace (ns_nmsg h :: map ns_nmsg t) with ([ns_nmsg h] ++ map ns_nmsg t) by reflexivity.
+  rewrite ns_nack_count_app, ns_cm_app.
+  assert ((ns_nack_count x (if ns_ncon h then [NsNack r (ns_nmid h) true] else [])
+           <= ns_cm x [ns_nmsg h])%nat); [|lia].
+  unfold ns_cm, ns_nack_count. cbn [map count_occ]. unfold ns_nmid.
+  destruct (ns_ncon h); cbn [filter length]; [|lia].
+  destruct (Z.eq_dec (ns_mid (ns_nmsg h)) x) as [E|E].
+  - rewrite E, Z.eqb_refl. cbn. lia.
+  - destruct (ns_mid (ns_nmsg h) =? x) eqn:E'; [lia|]. cbn. lia.
+Qed.
+
+Lemma ns_nack_count_drops x r l :
+  (ns_nack_count x (ns_drops r l) <= ns_cmn x l)%nat /\
+  (forall q, In q l -> ns_ncon q = true -> ns_nmid q = x -> (1 <= ns_nack_count x (ns_drops r l))%nat).
+Proof.
+  unfold ns_cmn. induction l as [|h t [IH1 IH2]]; [split; [apply le_n|intros q []]|].
+  unfold ns_drops in *. cbn [flat_map map].
+  replace (ns_nmsg h :: map ns_nmsg t) with ([ns_nmsg h] ++ map ns_nmsg t) by reflexivity.
+  rewrite ns_nack_count_app, ns_cm_app.
+  set (hd := NsDrop (ns_nmsg h) :: (if ns_ncon h then [NsNack r (ns_nmid h) true] else [])).
+  assert (H1 : (ns_nack_count x hd <= ns_cm x [ns_nmsg h])%nat).
+  { unfold hd, ns_cm, ns_nack_count. cbn [map count_occ filter]. unfold ns_nmid.
+    destruct (ns_ncon h); cbn [filter length]; [|lia].
+    destruct (Z.eq_dec (ns_mid (ns_nmsg h)) x) as [E|E].
+    - rewrite E, Z.eqb_refl. cbn. lia.
+    - destruct (ns_mid (ns_nmsg h) =? x) eqn:E'; [lia|]. cbn. lia. }
+  split; [lia|]. intros q [Hq|Hq] Hc Hm.
+  - subst q. assert ((1 <= ns_nack_count x hd)%nat); [|lia].
+    unfold hd, ns_nack_count. rewrite Hc. cbn [filter]. rewrite Hm, Z.eqb_refl. cbn. lia.
+  - specialize (IH2 q Hq Hc Hm). lia.
+Qed.
+
+Lemma ns_txs_nacks r l : ns_txs (ns_nacks r l) = [].
+Proof.
+  induction l as [|h t IH]; [reflexivity|]. unfold ns_nacks in *. cbn [flat_map].
+  rewrite ns_txs_app, IH. destruct (ns_ncon h); reflexivity.
+Qed.
+Lemma ns_txs_drops r l : ns_txs (ns_drops r l) = [].
+Proof.
+  induction l as [|h t IH]; [reflexivity|]. unfold ns_drops in *. cbn [flat_map].
+  rewrite ns_txs_app, IH. destruct (ns_ncon h); reflexivity.
+Qed.
+Lemma ns_res_nacks r l : ns_res (ns_nacks r l) = [].
+Proof.
+  induction l as [|h t IH]; [reflexivity|]. unfold ns_nacks in *. cbn [flat_map].
+  rewrite ns_res_app, IH. destruct (ns_ncon h); reflexivity.
+Qed.
+Lemma ns_res_drops r l : ns_res (ns_drops r l) = [].
+Proof.
+  induction l as [|h t IH]; [reflexivity|]. unfold ns_drops in *. cbn [flat_map].
+  rewrite ns_res_app, IH. destruct (ns_ncon h); reflexivity.
+Qed.
